@@ -165,13 +165,16 @@ static J read_attr(Ctx& c, CK_SESSION_HANDLE hs, CK_OBJECT_HANDLE ho, CK_ATTRIBU
         e.set("t", t);
         return e;
     }
-    Buf b; b.alloc(at.ulValueLen); at.pValue = b.p;
-    CK_ULONG qlen = at.ulValueLen;
-    CALL(c.P->fl->C_GetAttributeValue(hs, ho, &at, 1));
-    if (rv != CKR_OK) { J e = J::obj(); e.set("rv", (long)rv); e.set("phase", 2); return e; }
-    J e = J::obj(); e.set("v", tohex(b.p, std::min<size_t>(at.ulValueLen, b.cap)));
-    if (at.ulValueLen != qlen) e.set("qlen", (long)qlen);
-    return e;
+    for (int attempt = 0; ; attempt++) {
+        Buf b; b.alloc(at.ulValueLen); at.pValue = b.p;
+        CK_ULONG qlen = at.ulValueLen;
+        CALL(c.P->fl->C_GetAttributeValue(hs, ho, &at, 1));
+        if (rv == CKR_BUFFER_TOO_SMALL && attempt < 3 && at.ulValueLen != CK_UNAVAILABLE_INFORMATION && at.ulValueLen > qlen) continue;   // the value grew between the size query and the fetch (another party wrote it)
+        if (rv != CKR_OK) { J e = J::obj(); e.set("rv", (long)rv); e.set("phase", 2); return e; }
+        J e = J::obj(); e.set("v", tohex(b.p, std::min<size_t>(at.ulValueLen, b.cap)));
+        if (at.ulValueLen != qlen) e.set("qlen", (long)qlen);
+        return e;
+    }
 }
 
 static std::string read_label(Ctx& c, CK_SESSION_HANDLE hs, CK_OBJECT_HANDLE ho, CK_RV* prv = nullptr) {
@@ -666,7 +669,10 @@ static void run_ops(Ctx& c, const J& ops, int base_index, const char* tag, int c
         bool is_crash_victim = (tag == nullptr) && g_plan.has("crash") && g_plan["crash"]["tid"].num() == c.t->tid && g_plan["crash"]["op"].num() == (long)k;
         if (is_crash_victim) { g_fs.record_snaps = true; g_fs.snaps.clear(); }
         uint64_t e0 = c.t->edges;
+        sim_yield(Y_CALL);                       // op boundary
+        c.t->in_act = op.has("act");
         J r = exec_op(c, op);
+        c.t->in_act = false;
         if (is_crash_victim) g_fs.record_snaps = false;
         J ret = J::obj(); ret.set("e", "ret"); ret.set("op", base_index + (int)k); ret.set("f", op.has("f") ? op["f"] : op["act"]);
         if (cs >= 0) ret.set("cs", cs);
